@@ -1,12 +1,15 @@
 /-
-  C02 (headline) — the native reader is layout tolerant and agrees with the documented grammar, on the *text*:
+  C02 (headline) — the native reader is layout tolerant and agrees with the documented grammar, on the *text*;
+  C01 (route 1, native) — formatter + parser on strings.
 
     `C02_layout_tolerant`   for a well-formed source document `es` (quoted strings included; no comments, includes,
                             `$`) and ANY admissible layout `spreadS (srcToksEs es) gaps tail` of its tokens,
-                            `parseNative` returns exactly the documented meaning `denSrcEs es []`, all side tables empty
+                            `parseNative` returns exactly the documented meaning `denSrcEs es []`, all side tables
+                            empty.  `C02_layout_tolerant_counter` also names the counter afterwards;
+                            `C02_layout_tolerant_gen` states the documentation-key condition on the meaning.
     `C02_layout_independent_text'`, `C02_never_fails`      corollaries
-    `C01_roundtrip_string`  formatter + parser on strings (route 1), native flavour: `parseNative (fmtPlain .native es)`
-                            is the normalised dict
+    `C01.C01_roundtrip_string`   `parseNative (fmtPlain .native es) = normEs es` on `DomC01`
+    `C01.C01_roundtrip_never_fails`
 
   The proof chains  `parse_block_spread` (C02lex) → `insert_literals` (C02ins) → `front_plain` (C02front), after
   deriving the side conditions of `front_plain` from the well-formedness of the document:
@@ -17,7 +20,15 @@
     3  `den_noPh`           the meaning has no placeholder key
     4  `den_nodup`          the meaning has unique keys at every level (`denSrcEs` builds with `setKey`): no hypothesis
                             on the document is needed, so `UniqueKeys` does not appear in the theorem
-    5  `den_lookup_none`    a key that is not written at the top level is not in the meaning
+                            (`ex_native_dup`: `a 1;a 2;` is read as `{a: 2}`)
+    5  `den_docKeys`        a key that is not written at the top level is not in the meaning
+                            (`C02_needs_docKeys`: the hypothesis `DocKeysAbsent` cannot be dropped)
+
+  Part B uses `C01.C01_writer` (C01fmt): the writer's text is an admissible layout of the well-formed document
+  `srcOfEs .native es`, which means `normEs es`.
+
+  Non-vacuity: `ex_native_glued`, `ex_native_loose` (the document and the two layouts of C02lex),
+  `C01.exDict_roundtrip` (the dict of C01fmt).  Helper lemmas live in `DictIO.C02.Main`.
 -/
 import DictIO.Props.C02lex
 import DictIO.Props.C02ins
@@ -619,6 +630,18 @@ theorem parseBlock_den {es : SrcEntries} {gaps : List Str} {tail : Str} {c : Cou
 
 /-! ## C02 -/
 
+/-- C02 with the condition on the documentation keys stated on the meaning instead of the text -/
+theorem C02_layout_tolerant_gen {es : SrcEntries} {gaps : List Str} {tail : Str} {c : Counter}
+    (comments : Bool) (dir : Str)
+    (hwf : SrcWFEs 1 es = true) (hg : GapsOKS (srcToksEs es) gaps = true) (ht : tail.all isWs = true)
+    (hc : C13.ValidCounter Gen.counterLimit c) (hn : countQuotedEs es ≤ Gen.counterLimit + 1)
+    (h1 : lookup (.str "_variables".toList) (denSrcEs es []) = none)
+    (h2 : lookup (.str "_includes".toList) (denSrcEs es []) = none) :
+    parseNative comments dir c (spreadS (srcToksEs es) gaps tail) =
+      .ok ({ data := denSrcEs es [] }, (labelEs { counter := c } es).1.counter) :=
+  front_plain comments dir c _ (noMarkup_of_wf hwf hg ht) (no_dollar_of_wf hwf hg ht)
+    (parseBlock_den hwf hg ht hc hn) (den_noPh hwf) (den_nodup es) h1 h2
+
 /-- **C02, with the counter spelled out.** -/
 theorem C02_layout_tolerant_counter {es : SrcEntries} {gaps : List Str} {tail : Str} {c : Counter}
     (comments : Bool) (dir : Str)
@@ -627,8 +650,7 @@ theorem C02_layout_tolerant_counter {es : SrcEntries} {gaps : List Str} {tail : 
     (hd : DocKeysAbsent es) :
     parseNative comments dir c (spreadS (srcToksEs es) gaps tail) =
       .ok ({ data := denSrcEs es [] }, (labelEs { counter := c } es).1.counter) :=
-  front_plain comments dir c _ (noMarkup_of_wf hwf hg ht) (no_dollar_of_wf hwf hg ht)
-    (parseBlock_den hwf hg ht hc hn) (den_noPh hwf) (den_nodup es) (den_docKeys hwf hd).1 (den_docKeys hwf hd).2
+  C02_layout_tolerant_gen comments dir hwf hg ht hc hn (den_docKeys hwf hd).1 (den_docKeys hwf hd).2
 
 /-- **C02 — the reader is layout tolerant and agrees with the documented grammar.**  For a well-formed source
     document `es` (keys and bare scalars are words, strings may be quoted; no comments, includes, `$`; leaf paths no
@@ -670,4 +692,143 @@ theorem C02_never_fails {es : SrcEntries} {gaps : List Str} {tail : Str} {c : Co
     ∃ r, parseNative comments dir c (spreadS (srcToksEs es) gaps tail) = .ok r :=
   ⟨_, C02_layout_tolerant_counter comments dir hwf hg ht hc hn hd⟩
 
+/-! ## non-vacuity of C02: the example document of `C02lex` (three quoted strings, a list, a nested dict) -/
+
+def exData : Entries :=
+  [ (.str ['k'], .leaf (.str "a; {b}".toList)),
+    (.str ['l'], .list [.leaf (.str "it's".toList), .leaf (.int 1)]),
+    (.str "sub".toList, .dict [(.str ['p'], .leaf (.str "x y".toList))]) ]
+
+theorem exSrc_den : denSrcEs exSrc [] = exData := by decide +kernel
+
+theorem exSrc_docKeys : DocKeysAbsent exSrc := by decide
+
+theorem exSrc_count : countQuotedEs exSrc = 3 := by decide
+
+/-- the whole reader on the glued layout -/
+theorem ex_native_glued (comments : Bool) (dir : Str) :
+    parseNative comments dir none "k 'a; {b}';l(\"it's\" 1);sub{p 'x y';}".toList =
+      .ok ({ data := exData }, some 2) := by
+  have h := C02_layout_tolerant_counter (c := none) (tail := []) comments dir exSrc_wf exSGapsGlued_ok rfl
+    (Or.inl rfl) (by rw [exSrc_count]; decide) exSrc_docKeys
+  rwa [exSGlued_text, exSrc_den, exSrc_label_st.1] at h
+
+/-- … and on the layout with tabs, CR LF, a no-break space, a leading tab and a trailing CR LF -/
+theorem ex_native_loose (comments : Bool) (dir : Str) :
+    parseNative comments dir none
+        "\tk  'a; {b}' ;\r\nl (\t\"it's\"\u00a01 );\r\n\r\nsub\n{\n  p\t\t'x y';\n}\r\n".toList =
+      .ok ({ data := exData }, some 2) := by
+  have h := C02_layout_tolerant_counter (c := none) (tail := ['\r', '\n']) comments dir exSrc_wf exSGapsLoose_ok
+    (by decide) (Or.inl rfl) (by rw [exSrc_count]; decide) exSrc_docKeys
+  rwa [exSLoose_text, exSrc_den, exSrc_label_st.1] at h
+
+/-! ### a key written twice: no uniqueness hypothesis is needed -/
+
+/-- `a 1;a 2;` -/
+def exDup : SrcEntries := [(['a'], .lit (.bare ['1'])), (['a'], .lit (.bare ['2']))]
+
+/-- the document means `{a: 2}` and that is what the reader returns -/
+theorem ex_native_dup (comments : Bool) (dir : Str) :
+    parseNative comments dir none "a 1;a 2;".toList = .ok ({ data := [(.str ['a'], .leaf (.int 2))] }, none) := by
+  have h := C02_layout_tolerant_counter (es := exDup) (gaps := [[], [' '], [], [], [' '], []]) (c := none) (tail := [])
+    comments dir (by decide) (by decide) rfl (Or.inl rfl) (by decide) (by decide)
+  have e1 : spreadS (srcToksEs exDup) [[], [' '], [], [], [' '], []] [] = "a 1;a 2;".toList := by decide
+  have e2 : denSrcEs exDup [] = [(.str ['a'], .leaf (.int 2))] := by decide +kernel
+  rwa [e1, e2] at h
+
+/-! ### the hypothesis on the documentation keys is needed -/
+
+/-- `_variables 1;` -/
+def exVars : SrcEntries := [("_variables".toList, .lit (.bare ['1']))]
+
+/-- the document is well formed and means `{_variables: 1}`, but the reader's `_clean` deletes the entry -/
+theorem C02_needs_docKeys :
+    SrcWFEs 1 exVars = true ∧ GapsOKS (srcToksEs exVars) [[], [' '], []] = true ∧
+    ¬ ∃ c', parseNative true [] none (spreadS (srcToksEs exVars) [[], [' '], []] []) =
+      .ok ({ data := denSrcEs exVars [] }, c') := by
+  have hwf : SrcWFEs 1 exVars = true := by decide
+  have hg : GapsOKS (srcToksEs exVars) [[], [' '], []] = true := by decide
+  refine ⟨hwf, hg, ?_⟩
+  have ht : ([] : Str).all isWs = true := rfl
+  have hb := parseBlock_den (c := none) hwf hg ht (Or.inl rfl) (by decide)
+  rw [front_id true [] none (noMarkup_of_wf hwf hg ht) (no_dollar_of_wf hwf hg ht), hb]
+  simp only [Except.map, clean_plain (den_noPh hwf) (den_nodup _)]
+  rintro ⟨c', h⟩
+  have h' : dropDocKeys (denSrcEs exVars []) = denSrcEs exVars [] :=
+    congrArg (fun r => match r with | .ok x => x.1.data | .error _ => []) h
+  revert h'
+  decide +kernel
+
 end DictIO.C02
+
+/-! ## C01, route 1 (formatter + parser on strings), native flavour -/
+
+namespace DictIO.C01
+open DictIO
+
+/-- no top-level key is `_variables` or `_includes` -/
+def DocKeysAbsent' (es : Entries) : Prop :=
+  ∀ e ∈ es, e.1 ≠ .str "_variables".toList ∧ e.1 ≠ .str "_includes".toList
+
+instance (es : Entries) : Decidable (DocKeysAbsent' es) := by unfold DocKeysAbsent'; infer_instance
+
+theorem norm_lookup_none {es : Entries} {k : Key} (h : ∀ e ∈ es, e.1 ≠ k) : lookup k (normEs es) = none := by
+  rw [lookup_eq_none_iff, keys_normEs]
+  intro hm
+  obtain ⟨e, he, hk⟩ := List.mem_map.mp hm
+  exact h e he hk
+
+/-- **C01 (strings, native).**  For a dict of the value domain, the text the native writer produces is read back by
+    the native reader — with `comments` on or off — as the dict with the documented element-type normalisation
+    (`normEs`: a string that spells a number, boolean or none comes back typed), with all side tables empty.
+
+    Hypotheses: the two documentation keys, which the reader deletes, are not among the top-level keys; the writer
+    quotes at most `counterLimit + 1` strings; the counter state is one that can occur. -/
+theorem C01_roundtrip_string {es : Entries} {c : Counter} (comments : Bool) (dir : Str) :
+    DomC01 .native es = true → DocKeysAbsent' es →
+    C02.countQuotedEs (srcOfEs .native es) ≤ Gen.counterLimit + 1 → C13.ValidCounter Gen.counterLimit c →
+    ∃ c', parseNative comments dir c (fmtPlain .native es) = .ok ({ data := normEs es }, c') := by
+  intro h hd hn hc
+  obtain ⟨hwf, hden, gaps, tail, e, hg, ht⟩ := C01_writer h
+  refine ⟨(labelEs { counter := c } (srcOfEs .native es)).1.counter, ?_⟩
+  rw [e, ← hden]
+  refine C02.C02_layout_tolerant_gen comments dir hwf hg ht hc hn ?_ ?_
+  · rw [hden]; exact norm_lookup_none fun e he => (hd e he).1
+  · rw [hden]; exact norm_lookup_none fun e he => (hd e he).2
+
+/-- the writer followed by the reader never fails on the domain -/
+theorem C01_roundtrip_never_fails {es : Entries} {c : Counter} (comments : Bool) (dir : Str)
+    (h : DomC01 .native es = true) (hd : DocKeysAbsent' es)
+    (hn : C02.countQuotedEs (srcOfEs .native es) ≤ Gen.counterLimit + 1) (hc : C13.ValidCounter Gen.counterLimit c) :
+    ∃ r, parseNative comments dir c (fmtPlain .native es) = .ok r := by
+  obtain ⟨c', h'⟩ := C01_roundtrip_string comments dir h hd hn hc
+  exact ⟨_, h'⟩
+
+/-! ### non-vacuity: the example dict of `C01fmt` -/
+
+theorem exDict_docKeys : DocKeysAbsent' exDict := by decide
+
+theorem exDict_count : C02.countQuotedEs (srcOfEs .native exDict) = 4 := by decide +kernel
+
+/-- `{'k': 'a;b', 'l': [1, 'x y', {'q': "it's"}], 's': {'t': 2.5, 7: None}, 'e': ''}` written and read back -/
+theorem exDict_roundtrip (comments : Bool) (dir : Str) :
+    ∃ c', parseNative comments dir none (unlines
+      ["k                             'a;b';",
+       "l",
+       "(",
+       "    1                 'x y'",
+       "    {",
+       "        q                     \"it's\";",
+       "    }",
+       ");",
+       "s",
+       "{",
+       "    t                         2.5;",
+       "    7                         NULL;",
+       "}",
+       "e                             '';"]) = .ok ({ data := exDict }, c') := by
+  have h := C01_roundtrip_string (c := none) comments dir exDict_dom exDict_docKeys
+    (by rw [exDict_count]; decide) (Or.inl rfl)
+  rwa [exDict_text, exDict_norm] at h
+
+end DictIO.C01
